@@ -273,7 +273,11 @@ func selector(prop string, cfg *PropCfg) func(*Obligation) bool {
 	for _, k := range cfg.Kinds {
 		kinds[k] = true
 	}
+	selectAll := os.Getenv("GOVC_SELECT_ALL") != "" // development / false-alarm sweeps: every obligation of the property's functions
 	return func(o *Obligation) bool {
+		if selectAll {
+			return true
+		}
 		switch o.Kind {
 		case "nil", "bounds", "alloc", "assert-type", "div0", "panic":
 			return kinds["safety"]
